@@ -1,6 +1,8 @@
 package props
 
 import (
+	"bytes"
+	"encoding/binary"
 	"encoding/hex"
 	"fmt"
 	"strings"
@@ -8,6 +10,7 @@ import (
 	"sync/atomic"
 	"time"
 
+	storetypes "cosmossdk.io/store/types"
 	abci "github.com/cometbft/cometbft/abci/types"
 	cmttypes "github.com/cometbft/cometbft/types"
 
@@ -88,7 +91,9 @@ type c16L1State struct {
 }
 
 type c16L1Sys struct {
+	rich   bool // root: two bridges, each with deposits, a final output, a paid withdrawal, a batch-info change
 	tree   *wtree
+	tree2  *wtree
 	blank  map[*world.L1]*world.L1
 	mu     sync.Mutex
 	clones atomic.Int64
@@ -98,7 +103,8 @@ type c16L1Sys struct {
 func newC16L1Sys() *c16L1Sys {
 	bob := world.Addr("bob").String()
 	ws := []wd{{Bridge: 1, Seq: 1, From: "l2user", To: bob, Denom: "uxx", Amount: 1}, {Bridge: 1, Seq: 2, From: "l2user", To: bob, Denom: "uxx", Amount: 2}}
-	return &c16L1Sys{tree: mkTree("c16", ws, 0), blank: map[*world.L1]*world.L1{}}
+	ws2 := []wd{{Bridge: 2, Seq: 1, From: "l2user", To: bob, Denom: "uyy", Amount: 1}, {Bridge: 2, Seq: 2, From: "l2user", To: bob, Denom: "uyy", Amount: 1}}
+	return &c16L1Sys{tree: mkTree("c16", ws, 0), tree2: mkTree("c16-b2", ws2, 0), blank: map[*world.L1]*world.L1{}}
 }
 
 func (y *c16L1Sys) Root() *c16L1State {
@@ -109,7 +115,28 @@ func (y *c16L1Sys) Root() *c16L1State {
 	if r := w.Deliver(w.Ctx, ophosttypes.NewMsgCreateBridge(world.Addr("creator").String(), world.BridgeConfig("proposer", "challenger", 10*time.Second))); !r.OK() {
 		panic(r.Err)
 	}
-	return &c16L1State{ctx: w.Ctx, w: w, nbr: 1}
+	if !y.rich {
+		return &c16L1State{ctx: w.Ctx, w: w, nbr: 1}
+	}
+	a := func(n string) string { return world.Addr(n).String() }
+	ctx := w.Ctx
+	must := func(m sdk.Msg) {
+		if r := w.Deliver(ctx, m); !r.OK() {
+			panic(fmt.Sprintf("c16 rich root: %T: %v", m, r.Err))
+		}
+	}
+	must(ophosttypes.NewMsgCreateBridge(a("creator"), world.BridgeConfig("proposer", "challenger", 10*time.Second)))
+	must(ophosttypes.NewMsgInitiateTokenDeposit(a("alice"), 1, "l2addr", world.Coin("uxx", 5), nil))
+	must(ophosttypes.NewMsgInitiateTokenDeposit(a("alice"), 2, "l2addr", world.Coin("uyy", 5), nil))
+	must(ophosttypes.NewMsgInitiateTokenDeposit(a("alice"), 2, "l2addr", world.Coin("uxx", 1), []byte{7}))
+	must(ophosttypes.NewMsgProposeOutput(a("proposer"), 1, 1, 11, y.tree.OutputRoot[:]))
+	must(ophosttypes.NewMsgProposeOutput(a("proposer"), 2, 1, 12, y.tree2.OutputRoot[:]))
+	must(ophosttypes.NewMsgUpdateBatchInfo(w.Authority, 2, ophosttypes.BatchInfo{Submitter: a("stranger"), ChainType: ophosttypes.BatchInfo_CHAIN_TYPE_CELESTIA}))
+	ctx = world.Advance(ctx, 11*time.Second)
+	must(y.tree.claim(1, 1, "bob"))
+	must(y.tree2.claim(0, 1, "bob"))
+	must(ophosttypes.NewMsgProposeOutput(a("proposer"), 1, 2, 500, y.tree.OutputRoot[:]))
+	return &c16L1State{ctx: ctx, w: w, nbr: 2}
 }
 
 func (y *c16L1Sys) blankFor(w *world.L1) *world.L1 {
@@ -212,10 +239,12 @@ func (y *c16L1Sys) script(w *world.L1, ctx sdk.Context) []string {
 			out = append(out, showQ(fmt.Sprintf("%s NextL1Sequence(%d)", tag, id), r5, e5))
 			r6, e6 := q.BatchInfos(ctx, &ophosttypes.QueryBatchInfosRequest{BridgeId: id})
 			out = append(out, showQ(fmt.Sprintf("%s BatchInfos(%d)", tag, id), r6, e6))
-			for i := 0; i < 2; i++ {
-				h := y.tree.Ws[i].leaf()
-				r7, e7 := q.Claimed(ctx, &ophosttypes.QueryClaimedRequest{BridgeId: id, WithdrawalHash: h[:]})
-				out = append(out, showQ(fmt.Sprintf("%s Claimed(%d,w%d)", tag, id, i+1), r7, e7))
+			for ti, t := range []*wtree{y.tree, y.tree2} {
+				for i := 0; i < 2; i++ {
+					h := t.Ws[i].leaf()
+					r7, e7 := q.Claimed(ctx, &ophosttypes.QueryClaimedRequest{BridgeId: id, WithdrawalHash: h[:]})
+					out = append(out, showQ(fmt.Sprintf("%s Claimed(%d,tree%d.w%d)", tag, id, ti+1, i+1), r7, e7))
+				}
 			}
 			n, e8 := w.HK.GetNextOutputIndex(ctx, id)
 			out = append(out, fmt.Sprintf("%s NextOutputIndex(%d) -> %d %s", tag, id, n, showErr(e8)))
@@ -244,6 +273,7 @@ func (y *c16L1Sys) script(w *world.L1, ctx sdk.Context) []string {
 	for i := 0; i < 2; i++ {
 		for idx := uint64(1); idx <= 2; idx++ {
 			d(fmt.Sprintf("Claim(w%d,idx=%d)", i+1, idx), y.tree.claim(i, idx, "bob"))
+			d(fmt.Sprintf("Claim(b2.w%d,idx=%d)", i+1, idx), y.tree2.claim(i, idx, "bob"))
 		}
 	}
 	for _, c := range []string{"challenger", "challenger2"} {
@@ -300,6 +330,13 @@ func (y *c16L1Sys) Check(s *c16L1State) (v *engine.Violation) {
 	b.BK.InitGenesis(bctx, bg)
 	b.HK.InitGenesis(bctx, &g2)
 	y.clones.Add(1)
+	// the imported module store holds every record of the original, byte for byte; the only keys it may
+	// add are per-bridge counters that the original left at their default (import writes them out)
+	if d := storeDiff(s.ctx, s.w.StoreKeys[2], bctx, b.StoreKeys[2], func(k, v []byte) bool {
+		return len(k) == 9 && (k[0] == ophosttypes.NextL1SequencePrefix[0] || k[0] == ophosttypes.NextOutputIndexPrefix[0]) && binary.BigEndian.Uint64(v) == 1
+	}, nil); d != "" {
+		return tagged(viol("imported-store-equals-the-original", "module store after import differs from the original: %s", d), "chain", "l1")
+	}
 	exp2, _, err := y.export(b, bctx)
 	if err != nil {
 		return viol("genesis-exports", "re-export failed: %v", err)
@@ -323,6 +360,37 @@ func (y *c16L1Sys) Check(s *c16L1State) (v *engine.Violation) {
 		return tagged(viol("clone-answers-like-the-original", "exports differ after the probe script:\n  original: %.600s\n  clone:    %.600s", diffAround(e1, e2), diffAround(e2, e1)), "chain", "l1")
 	}
 	return nil
+}
+
+// storeDiff compares two module stores key by key. extraOK says which keys may exist only in the
+// clone; lostOK (may be nil) which keys of the original the genesis is not expected to carry.
+func storeDiff(octx sdk.Context, okey storetypes.StoreKey, cctx sdk.Context, ckey storetypes.StoreKey, extraOK func(k, v []byte) bool, lostOK func(k []byte) bool) string {
+	orig, clone := octx.KVStore(okey), cctx.KVStore(ckey)
+	it := orig.Iterator(nil, nil)
+	defer it.Close()
+	for ; it.Valid(); it.Next() {
+		if lostOK != nil && lostOK(it.Key()) {
+			continue
+		}
+		cv := clone.Get(it.Key())
+		if cv == nil {
+			return fmt.Sprintf("key %x (value %x) is missing in the clone", it.Key(), it.Value())
+		}
+		if !bytes.Equal(cv, it.Value()) {
+			return fmt.Sprintf("key %x holds %x in the original and %x in the clone", it.Key(), it.Value(), cv)
+		}
+	}
+	it2 := clone.Iterator(nil, nil)
+	defer it2.Close()
+	for ; it2.Valid(); it2.Next() {
+		if orig.Has(it2.Key()) || (lostOK != nil && lostOK(it2.Key())) {
+			continue
+		}
+		if !extraOK(it2.Key(), it2.Value()) {
+			return fmt.Sprintf("key %x (value %x) exists only in the clone", it2.Key(), it2.Value())
+		}
+	}
+	return ""
 }
 
 func diffAround(a, b string) string {
@@ -603,6 +671,14 @@ func (y *c16L2Sys) Check(s *c16L2State) (v *engine.Violation) {
 	b.BK.InitGenesis(bctx, s.w.BK.ExportGenesis(s.ctx))
 	ups := b.K.InitGenesis(bctx, &g2)
 	y.clones.Add(1)
+	// the imported module store holds every record of the original, byte for byte, except what the
+	// property excludes (per-height history, the recorded L1 validator set)
+	notExported := func(k []byte) bool {
+		return len(k) > 0 && (k[0] == opchildtypes.HistoricalInfoPrefix[0] || k[0] == opchildtypes.HostHeightKey[0] || k[0] == opchildtypes.HostValidatorsPrefix[0])
+	}
+	if d := storeDiff(s.ctx, s.w.StoreKeys[2], bctx, b.StoreKeys[2], func(k, v []byte) bool { return false }, notExported); d != "" {
+		return tagged(viol("imported-store-equals-the-original", "module store after import differs from the original: %s", d), "chain", "l2")
+	}
 	// the initial validator updates after import describe exactly the bonded set
 	tm, err := cmttypes.PB2TM.ValidatorUpdates(ups)
 	if err != nil {
@@ -664,6 +740,18 @@ func init() {
 				return res
 			}
 			res.Absorb("l1", rep)
+			y1r := newC16L1Sys()
+			y1r.rich = true
+			or := opts(rc, pick(rc, 3, 4))
+			or.Deadline = time.Now().Add(time.Until(rc.Deadline()) / 2)
+			repr, err := engine.Explore[*c16L1State](y1r, or)
+			if err != nil {
+				res.HarnessErr = err
+				return res
+			}
+			res.Absorb("l1-rich-root", repr)
+			y1.clones.Add(y1r.clones.Load())
+			y1.probes.Add(y1r.probes.Load())
 			y2 := &c16L2Sys{blank: map[*world.L2]*world.L2{}}
 			rep2, err := engine.Explore[*c16L2State](y2, opts(rc, pick(rc, 5, 6)))
 			if err != nil {
@@ -672,8 +760,8 @@ func init() {
 			}
 			res.Absorb("l2", rep2)
 			res.Coverage["round_trips"] = map[string]any{"l1_clones": y1.clones.Load(), "l1_probe_steps_compared": y1.probes.Load(), "l2_clones": y2.clones.Load(), "l2_probe_steps_compared": y2.probes.Load()}
-			res.Coverage["alphabet"] = "L1: CreateBridge, deposits into two bridges, Propose, Delete, Claim, UpdateBatchInfo (two values), UpdateMetadata, UpdateOracleConfig, UpdateProposer, UpdateChallenger, UpdateParams(fee), Advance; L2: credited and refunded deposits, withdrawal, AddValidator, RemoveValidator (bonded / fresh), UpdateParams, SetBridgeInfo, NextBlock"
-			res.Coverage["oracle"] = "in every distinct state: export module + auth + bank genesis, ValidateGenesis passes, JSON round trip, import into a blank world, re-export byte-identical; a fixed probe script (every message type incl. wrong signers, stale/next deposits, claims, deletes, two blocks; every query type) gives identical responses, errors, events, validator updates and final exports on original and clone; L2: InitGenesis's validator updates applied to an empty CometBFT set = bonded set"
+			res.Coverage["alphabet"] = "L1 (from a one-bridge root and from a root with two bridges that each have deposits, a final output, a paid withdrawal and a batch-info change): CreateBridge, deposits into two bridges, Propose, Delete, Claim, UpdateBatchInfo (two values), UpdateMetadata, UpdateOracleConfig, UpdateProposer, UpdateChallenger, UpdateParams(fee), Advance; L2: credited and refunded deposits, withdrawal, AddValidator, RemoveValidator (bonded / fresh), UpdateParams, SetBridgeInfo, NextBlock"
+			res.Coverage["oracle"] = "in every distinct state: export module + auth + bank genesis, ValidateGenesis passes, JSON round trip, import into a blank world, re-export byte-identical; the imported module store equals the original's key by key (L1: plus per-bridge counters written out at their default; L2: minus per-height history and the recorded L1 validator set); a fixed probe script (every message type incl. wrong signers, stale/next deposits, claims, deletes, two blocks; every query type) gives identical responses, errors, events, validator updates and final exports on original and clone; L2: InitGenesis's validator updates applied to an empty CometBFT set = bonded set"
 			res.Assumptions = []string{"host-validator snapshot, per-height history and the in-memory plan table are excluded by the property"}
 			res.Require(y1.clones.Load() > 50 && y2.clones.Load() > 50, "too few round trips")
 			return res
@@ -681,6 +769,11 @@ func init() {
 		Replay: func(kind string, path []string) ([]string, *engine.Violation, error) {
 			if kind == "l2" {
 				return engine.Replay[*c16L2State](&c16L2Sys{blank: map[*world.L2]*world.L2{}}, path)
+			}
+			if kind == "l1-rich-root" {
+				y := newC16L1Sys()
+				y.rich = true
+				return engine.Replay[*c16L1State](y, path)
 			}
 			return engine.Replay[*c16L1State](newC16L1Sys(), path)
 		},
